@@ -42,6 +42,10 @@ struct Shared {
     pend: Vec<AtomicBool>,
     /// wakers of the readiness checks that were answered Pending
     wakers: std::sync::Mutex<Vec<std::task::Waker>>,
+    /// per call: the next `call` of a service of this call makes the call's services pending (from inside the worker's poll)
+    arm_pend: Vec<AtomicBool>,
+    /// the next Pending answer takes 300 ms (the worker thread is held inside its readiness sweep)
+    slow_once: AtomicBool,
 }
 
 struct TagSvc {
@@ -62,6 +66,9 @@ impl<S: AsyncRead + AsyncWrite + Unpin + 'static> Service<S> for TagSvc {
 
     fn poll_ready(&self, cx: &mut Context<'_>) -> Poll<Result<(), ()>> {
         if self.sh.pend[self.c].load(Ordering::SeqCst) {
+            if self.sh.slow_once.swap(false, Ordering::SeqCst) {
+                thread::sleep(Duration::from_millis(300));
+            }
             self.sh.wakers.lock().unwrap().push(cx.waker().clone());
             // re-check: the flag may have been cleared before the waker was stored
             if self.sh.pend[self.c].load(Ordering::SeqCst) {
@@ -79,6 +86,11 @@ impl<S: AsyncRead + AsyncWrite + Unpin + 'static> Service<S> for TagSvc {
         if self.sh.poison.swap(false, Ordering::SeqCst) {
             self.sh.poisoned.fetch_add(1, Ordering::SeqCst);
             panic!("poisoned call: the worker future dies");
+        }
+        if self.sh.arm_pend[self.c].swap(false, Ordering::SeqCst) {
+            // from now on (the very next readiness sweep of this worker poll) the services of this call are pending
+            self.sh.slow_once.store(true, Ordering::SeqCst);
+            self.sh.pend[self.c].store(true, Ordering::SeqCst);
         }
         let c = self.c as u8;
         Box::pin(async move {
@@ -162,6 +174,20 @@ fn client_keep(a: &Addr, ms: u64) -> (u8, Option<Sock>) {
     }
 }
 
+/// connects and sends the request byte; the answer is read later
+fn client_open(a: &Addr) -> Option<Sock> {
+    let mut sock = match a {
+        Addr::Tcp(sa) => Sock::Tcp(StdTcpStream::connect_timeout(sa, Duration::from_millis(1000)).ok()?),
+        Addr::Uds(p) => Sock::Uds(StdUnixStream::connect(p).ok()?),
+    };
+    let w = match &mut sock {
+        Sock::Tcp(s) => s.write_all(&[1]),
+        Sock::Uds(s) => s.write_all(&[1]),
+    };
+    w.ok()?;
+    Some(sock)
+}
+
 fn client(a: &Addr, ms: u64) -> u8 {
     client_keep(a, ms).0
 }
@@ -188,6 +214,8 @@ pub fn run_scenario(sc: &Value, dir: &str, idx: usize) -> Vec<Value> {
         dropped: AtomicUsize::new(0),
         pend: (0..MAXC).map(|_| AtomicBool::new(false)).collect(),
         wakers: std::sync::Mutex::new(vec![]),
+        arm_pend: (0..MAXC).map(|_| AtomicBool::new(false)).collect(),
+        slow_once: AtomicBool::new(false),
     });
     let mut out = vec![json!({"ev": "reset", "scenario": sc})];
     let ncalls = calls.len();
@@ -336,6 +364,29 @@ pub fn run_scenario(sc: &Value, dir: &str, idx: usize) -> Vec<Value> {
                         }
                     }
                     out.push(json!({"ev": "conn", "s": p, "by": by}));
+                    out.push(json!({"ev": "made", "made": made_now(&sh)}));
+                }
+                "pendrace" => {
+                    // client A is served; the call itself makes the services of call c pending, and the readiness sweep that
+                    // follows IN THE SAME worker poll takes 300 ms; client B connects during that sweep: it arrives between
+                    // the sweep (which finds the queue empty and a service pending) and the receive - and must wait
+                    let c = e["c"].as_u64().unwrap_or(1) as usize;
+                    let p = e["s"].as_u64().unwrap_or(1) as usize;
+                    sh.arm_pend[c].store(true, Ordering::SeqCst);
+                    let a = client_open(&addrs[p - 1]);
+                    thread::sleep(Duration::from_millis(80));
+                    let b = client_open(&addrs[p - 1]);
+                    let by_a = a.and_then(|mut s| s.read_tag(2500)).unwrap_or(0);
+                    out.push(json!({"ev": "conn", "s": p, "by": by_a}));
+                    out.push(json!({"ev": "pend", "c": c}));
+                    let mut by_b = 0;
+                    if let Some(mut s) = b {
+                        match s.read_tag(400) {
+                            Some(t) => by_b = t,
+                            None => waiting.push(s),
+                        }
+                    }
+                    out.push(json!({"ev": "conn", "s": p, "by": by_b}));
                     out.push(json!({"ev": "made", "made": made_now(&sh)}));
                 }
                 "pend" => {
